@@ -417,4 +417,29 @@ SPEC = {
                 "params": {"size": "zint", "padding": "zint", "dilation": "zint", "kernel": "zint", "stride": "zint"}},
         },
     },
+    "SelectSites": {
+        "sites": {
+            nm: dict(d, file="inferno/core/infrastructure.py", cls="RecordTensor", method="select")
+            for nm, d in (
+                # tensor-valued `time`
+                ("sel_t_out_of_range", {"target": "iftest", "startswith": "tmin < -tolerance",
+                                        "params": {"tmin": R, "tmax": R, "tolerance": R, "dt": R, "recordsz": "zint"}}),
+                ("sel_t_shift_raw", {"target": "shift", "nth": 0, "params": {"time": R, "dt": R}}),
+                ("sel_t_shiftr", {"target": "shiftr", "params": {"shift": R}}),
+                ("sel_t_shift", {"target": "shift", "nth": 1, "peel": [("arg", "rearrange", 0)],
+                                 "params": {"dt": R, "shiftr": R, "time": R, "tolerance": R, "shift": R}}),
+                ("sel_t_sample_at", {"target": "res", "nth": 0, "peel": [("arg", "interp", 2)], "params": {"dt": R, "shift": R}}),
+                ("sel_t_exact_overwrite", {"target": "res", "nth": 1, "peel": [("arg", "rearrange", 0)],
+                                           "params": {"prev_idx": R, "next_idx": R, "prev_data": R, "res": R}}),
+                # scalar `time`
+                ("sel_s_out_of_range", {"target": "iftest", "startswith": "time < -tolerance",
+                                        "params": {"time": R, "tolerance": R, "dt": R, "recordsz": "zint"}}),
+                ("sel_s_shift", {"target": "shift", "nth": 2, "params": {"time": R, "dt": R}}),
+                ("sel_s_on_grid", {"target": "iftest", "startswith": "abs(dt * round(shift) - time)",
+                                   "params": {"dt": R, "shift": R, "time": R, "tolerance": R}}),
+                ("sel_s_sample_at", {"target": "return", "nth": 2, "peel": [("arg", "interp", 2), ("arg", "fullc", 1)],
+                                     "params": {"dt": R, "shift": R}}),
+            )
+        },
+    },
 }
